@@ -726,15 +726,15 @@ pub fn eval_application<'a>(
     match cast_lambda(eval_variable(ctx, app.lambda(), AnnRef::default())?) {
         Lambda::Internal(internal) => {
             let args = app
-                .arguments()
-                .map(|a| eval_terminal(ctx, a, AnnRef::default()))
+                .argument_nodes()
+                .map(|a| eval_any(ctx, a, AnnRef::default()))
                 .collect::<Result<Vec<_>>>()?;
             internal.eval(args, ann)
         }
         Lambda::External(decl) => {
             let mut scope = HashMap::new();
-            for (binding, argument) in decl.bindings().zip(app.arguments()) {
-                let value = eval_terminal(ctx, argument, AnnRef::default())?;
+            for (binding, argument) in decl.bindings().zip(app.argument_nodes()) {
+                let value = eval_any(ctx, argument, AnnRef::default())?;
                 scope.insert(binding.ident(), value);
             }
 
